@@ -600,92 +600,6 @@ func c16Uniq(in []string) []string {
 	return out
 }
 
-// c16ApplyKnown rewrites a case that has the shape of a known finding (so the
-// search continues behind it) and reports which findings excluded it.
-func c16ApplyKnown(e *c16Env, c c16Case) (c16Case, []string) {
-	var ex []string
-	for pass := 0; pass < 3; pass++ {
-		_, m := c16Build(e, c)
-		tokLive := c.Tok.Kind == "valid" || (c.Tok.Kind == "b64" && c.Tok.Seg%3 == 2) // possibly a valid non-root credential
-		nonAdmin := tokLive && (c.Role == "read" || c.Role == "write")
-		if !nonAdmin {
-			break
-		}
-		// admin-routes-open: the middleware asks HasAccess for role "admin", which has no rule for it:
-		// any token whose namespace check passes ("*", or an index_name member naming one of its
-		// namespaces in a POST body) is let through to /system/* and /auth/*.
-		if verifkit.Known("admin-routes-open") && m.Routed && m.Route.Class == c16Admin {
-			passes := c16In(c.NS, "*") || (c.Shape == "decoy" && c16In(c.NS, c.Decoy))
-			if passes {
-				c.NS = []string{"ghost"}
-				if c.Shape == "decoy" {
-					c.Shape = "std"
-				}
-				ex = append(ex, "admin-routes-open")
-				continue
-			}
-		}
-		// role-from-path-suffix: for POST/PUT/DELETE the required role is "read" when the URL path ends
-		// in one of the words of read-like POST routes — also when the last segment is a resource name.
-		// Shape: read-role token, mutating route whose path ends in a caller-chosen name with such a suffix.
-		if verifkit.Known("role-from-path-suffix") && c.Role == "read" && m.Routed && m.Route.Class == c16Mutate {
-			r0 := c16Routes[c16RouteIdx[c.Route]]
-			last := r0.Pattern[strings.LastIndex(r0.Pattern, "/")+1:]
-			if strings.HasPrefix(last, "{") {
-				switch r0.Wild[strings.Trim(last, "{}")] {
-				case "$KEY":
-					if c16HasSpecialSuffix(c.Key) {
-						c.Key += "-x"
-						ex = append(ex, "role-from-path-suffix")
-						continue
-					}
-				case "$IDX":
-					if c16HasSpecialSuffix(c.Idx) {
-						c.Idx = "alpha"
-						ex = append(ex, "role-from-path-suffix")
-						continue
-					}
-				}
-			}
-		}
-		// kv-exposes-auth-state: signing key and revocation markers live in the ordinary KV store under
-		// _sys_auth::, and the /kv routes do not reserve that prefix. Shape: non-admin token, mutating
-		// /kv route, key under _sys_auth::.
-		if verifkit.Known("kv-exposes-auth-state") && m.Routed && m.Route.Class == c16Mutate && strings.HasPrefix(m.Route.Pattern, "/kv/") &&
-			(strings.HasPrefix(c.Key, "_sys_auth::") || strings.HasPrefix(c.Key, "$")) {
-			c.Key = "plain"
-			ex = append(ex, "kv-exposes-auth-state")
-			continue
-		}
-		if c16Restricted(c.NS) {
-			// namespace-from-split-path: the middleware takes the namespace from strings.Split(r.URL.Path, "/")[3],
-			// the router from the escaped path: for an index named "a/b" (sent as a%2Fb) the token is checked
-			// against "a". Shape: restricted token, path-carried index name with '/', first component in the list.
-			if verifkit.Known("namespace-from-split-path") && c16Routes[c16RouteIdx[c.Route]].Where == c16WPath {
-				if i := strings.Index(c.Idx, "/"); i >= 0 && c16In(c.NS, c.Idx[:i]) && !c16In(c.NS, c.Idx) {
-					for j := range c.NS {
-						if c.NS[j] == c.Idx[:i] {
-							c.NS[j] = "ghost"
-						}
-					}
-					c.NS = c16Uniq(c.NS)
-					ex = append(ex, "namespace-from-split-path")
-					continue
-				}
-			}
-			// index-name-decoy: the namespace is read from the JSON member index_name even on routes whose
-			// handler takes its indexes from other members (source_index / target_index).
-			if verifkit.Known("index-name-decoy") && c16Routes[c16RouteIdx[c.Route]].Where == c16WSrcTgt && c.Shape == "decoy" && c16In(c.NS, c.Decoy) {
-				c.Shape = "std"
-				ex = append(ex, "index-name-decoy")
-				continue
-			}
-		}
-		break
-	}
-	return c, ex
-}
-
 func TestVerif_C16_request(t *testing.T) {
 	c16Quiet()
 	col := verifkit.New("C16", "request", "one generated request per case: route x method x role x namespace list x resource names (special words exact/suffix/infix/after '/', percent-encoded) x body shape (index_name absent / other case / escaped key / duplicated key / trailing document / decoy member) x credential manipulation; judged by a reference decision written from the statement plus a state digest before/after. Non-trivial = the reference decision says the request must be refused (invalid credential, role below the route's class, or an index outside the token's namespaces)")
@@ -721,10 +635,6 @@ func TestVerif_C16_request(t *testing.T) {
 	verifkit.RapidSetup(4000, 40000)
 	rapid.Check(t, func(rt *rapid.T) {
 		c := c16GenCase().Draw(rt, "case")
-		c, excluded := c16ApplyKnown(env, c)
-		for _, f := range excluded {
-			col.Excluded(f)
-		}
 		_, m := c16Build(env, c)
 		cred, err := env.toks.derive(env, c.Tok, c.Role, c.NS)
 		if err != nil {
